@@ -132,11 +132,18 @@ class C10(vlib.Check):
             mode = rng.choice(['default', 'default', 'check', 'substitute', 'assume'])
             yield fmt_case('string', mode, f, args)
             yield 'writer_retry ' + hx(f)
+            if len(args) <= 3:
+                yield 'throwsink %s %s' % (hx(f), ' '.join(args))
+        for t in (b'', b'abc', b'x' * 15, b'x' * 16, b'y' * 40):
+            yield 'fmtref ' + hx(t)
+        for f, args in ((b'abc{}def', ['i32:1']), (b'{}{}{}', ['s:6162', 'i32:5', 'b:1']), (b'0123456789{>20}', ['s:7a']), (b'{', []), (b'plain', [])):
+            for _ in range(8):
+                yield 'throwsink %s %s' % (hx(f), ' '.join(args))
             for c in cuts(f):
                 yield fmt_case('string', mode, c, args)
 
     def same(self, case, impl, model):
-        if case.startswith('strtol') or case.startswith('writer_retry'):
+        if case.startswith(('strtol', 'writer_retry', 'throwsink', 'fmtref')):
             return impl == model
         ic, mc = outcome_class(impl), outcome_class(model)
         if ic == mc:
@@ -147,7 +154,7 @@ class C10(vlib.Check):
         return ic in both and mc in both
 
     def allowed(self, case, impl, spec):
-        if case.startswith('strtol') or case.startswith('writer_retry'):
+        if case.startswith(('strtol', 'writer_retry', 'throwsink', 'fmtref')):
             return impl == spec
         return class_allowed(impl, spec)
 
